@@ -68,6 +68,9 @@ fn main() {
                 None => println!("{{\"property\":\"{}\",\"checks\":0,\"nontrivial\":0,\"failures\":[],\"stats\":{{}},\"samples\":[],\"none\":true}}", args[2]),
             }
         }
+        "deepprobe" => {
+            println!("{}", oracles::deep_probe().to_json("deepprobe"));
+        }
         "dropprobe" if args.len() == 3 => {
             oracles::drop_probe(args[2].parse().unwrap_or(0));
         }
